@@ -14,6 +14,7 @@ import (
 	"strings"
 	"sync"
 	"sync/atomic"
+	"time"
 	_ "unsafe"
 )
 
@@ -403,6 +404,10 @@ type Config struct {
 	MaxTicks   int64   `json:"max_ticks"`
 	CrashStep  int     `json:"crash_step"`
 	Preempt    int     `json:"preempt"` // > 0: park at loop heads, on average once every Preempt loop iterations (seeded)
+	// TimersFirst: whenever nothing is runnable, simulated time passes (every pending timer of the system under test
+	// fires) before the outside world is consulted (next stdin arrival, progress of real children): the environment is
+	// slower than any timeout. Otherwise the clock only moves when the run would be declared deadlocked.
+	TimersFirst bool `json:"timers_first"`
 	WantTrace  bool    `json:"want_trace"`
 	WantChoice bool    `json:"want_choices"`
 }
@@ -427,6 +432,7 @@ type Outcome struct {
 	Blocked     []string       `json:"blocked,omitempty"` // at deadlock: names seen but not finished
 	Idle        int            `json:"idle_events"`
 	MapRaces    []string       `json:"map_races,omitempty"` // shared-map discipline violations (see MapAccess)
+	ClockJumps  int            `json:"clock_jumps,omitempty"` // times simulated time was advanced and a timer of the system under test fired
 	MapChecks   int            `json:"map_checks,omitempty"` // accesses to package-level maps examined
 	MapShared   int            `json:"map_shared,omitempty"` // maps touched by two or more goroutines after start-up
 }
@@ -614,6 +620,22 @@ func Run(cfg Config, wait func(), sut func()) *Outcome {
 		parkL = nil
 		mu.Unlock()
 		if len(cands) == 0 {
+			// Discrete-event time. Everything is durably blocked, so a sleep of the scheduler's own goroutine lets the
+			// bubble's clock jump: pending timers of the system under test fire in order, each woken goroutine runs up to
+			// its next yield point. It reports whether anything woke.
+			advanceClock := func() bool {
+				time.Sleep(time.Hour)
+				wait()
+				mu.Lock()
+				n := len(parkL)
+				mu.Unlock()
+				return n > 0 || panicked.Load() || exited.Load() || crashed.Load() || livelock.Load() || finished.Load()
+			}
+			if cfg.TimersFirst && advanceClock() {
+				out.ClockJumps++
+				note("clock")
+				continue
+			}
 			handled := false
 			for _, h := range idleHandlers {
 				if h() {
@@ -623,6 +645,11 @@ func Run(cfg Config, wait func(), sut func()) *Outcome {
 			}
 			if handled {
 				out.Idle++
+				continue
+			}
+			if !cfg.TimersFirst && advanceClock() {
+				out.ClockJumps++
+				note("clock")
 				continue
 			}
 			out.Status = "deadlock"
